@@ -146,7 +146,7 @@ Fixpoint go (c i : Z) (s : state) (g : ghosts) (a : blockacc) (l : list (op * ex
     let r := add_trg c i 4 (trig_penalty_not_atomic s o) r in
     match e with
     | ETx ok_obs dbal fset =>
-      let r := add_trg c i 5 (withdraw_sidestep s o fset && ok_obs) r in
+      let r := add_trg c i 5 (withdraw_sidestep s o fset) r in
       let r := add_mm c i 1 (eqb ok ok_obs) r in
       let r := add_mm c i 2 (bal_delta o ok =? dbal) r in
       let r := add_mon c i 16 (negb (withdraw_sidestep s o fset && ok_obs)) r in
